@@ -176,19 +176,7 @@ def run(ctx):
             restores = [w for w in attr_writes(ex) if w.attr == CONFIG_ATTR and in_handler(ex, w.node) is h]
             c.ob("R4", len(restores) >= 2, ex, "rollback-restores", "handler restores the configuration (clear + update)" if len(restores) >= 2 else
                  "the rollback handler does not restore the configuration", h)
-            rearm = [call for call in self_calls_in(ex, "_schedule_state_tasks") if in_handler(ex, call) is h]
-            ok = False
-            for call in rearm:
-                # guarded by membership in the exit set
-                from sa.util import guards_at, compare_parts
-                for a, pol in guards_at(ex, call):
-                    cp = compare_parts(a)
-                    if cp and isinstance(cp[1], ast.In) and pol:
-                        for asg in assignments_to(ex, norm(cp[2])):
-                            if "_compute_states_to_exit" in norm(getattr(asg, "value", asg)):
-                                ok = True
-            c.ob("R4", ok, ex, "rollback-rearms-exited", "exactly the states that were exited get their timers/services re-armed" if ok else
-                 "rollback does not re-arm the tasks of the states it had exited (or re-arms others)", h)
+    shared.rollback_rearm(ctx, "R4")
     # ---- R5 async run loop survives a failing event --------------------------------
     dr = roles(ctx, "Interpreter").drain
     loop = next((l for l in own_nodes(dr.node) if isinstance(l, ast.While)), None)
